@@ -186,6 +186,20 @@ class X86Instruction(Instruction):
     tokens = [ModRmToken]
     isa = isa
 
+    # Set for instructions that write their r/m operand (neg, not, shifts,
+    # add r/m, reg ...). When that operand is a register, the register is
+    # not only read, but defined as well:
+    rm_written = False
+
+    @property
+    def defined_registers(self):
+        defined = super().defined_registers
+        if self.rm_written:
+            rm = self.rm
+            if isinstance(rm, (RmReg8, RmReg16, RmReg32, RmReg64)):
+                defined.append(rm.reg_rm)
+        return defined
+
 
 class NearJump(X86Instruction):
     """jmp imm32"""
@@ -718,11 +732,21 @@ class RmBase16(rmregbase16):
         tokens.set_field("opcode", self.opcode)
 
 
+# single operand instructions that modify their r/m operand:
+RM_WRITING_MNEMONICS = ("inc", "dec", "neg", "not", "shl", "shr", "sar")
+
+
 def make_rm64(mnemonic, opcode, o):
     """Create an instruction taking a 64 bit r/m operand"""
     rm = Operand("rm", rm64_modes)
     syntax = Syntax([mnemonic, " ", rm], priority=2)
-    members = {"syntax": syntax, "rm": rm, "opcode": opcode, "reg": o}
+    members = {
+        "syntax": syntax,
+        "rm": rm,
+        "opcode": opcode,
+        "reg": o,
+        "rm_written": mnemonic in RM_WRITING_MNEMONICS,
+    }
     return type(mnemonic.title(), (RmBase,), members)
 
 
@@ -730,7 +754,13 @@ def make_rm32(mnemonic, opcode, o):
     """Create an instruction taking a 32 bit r/m operand"""
     rm = Operand("rm", rm32_modes)
     syntax = Syntax([mnemonic, " ", rm], priority=2)
-    members = {"syntax": syntax, "rm": rm, "opcode": opcode, "reg": o}
+    members = {
+        "syntax": syntax,
+        "rm": rm,
+        "opcode": opcode,
+        "reg": o,
+        "rm_written": mnemonic in RM_WRITING_MNEMONICS,
+    }
     return type(mnemonic.title(), (RmBase,), members)
 
 
@@ -738,7 +768,13 @@ def make_rm16(mnemonic, opcode, o):
     """Create an instruction taking a 16 bit r/m operand"""
     rm = Operand("rm", rm16_modes)
     syntax = Syntax([mnemonic, " ", rm], priority=2)
-    members = {"syntax": syntax, "rm": rm, "opcode": opcode, "reg": o}
+    members = {
+        "syntax": syntax,
+        "rm": rm,
+        "opcode": opcode,
+        "reg": o,
+        "rm_written": mnemonic in RM_WRITING_MNEMONICS,
+    }
     return type(mnemonic.title(), (RmBase16,), members)
 
 
@@ -752,7 +788,13 @@ def make_rm_reg64(mnemonic, opcode, read_op1=True, write_op1=True):
     rm = Operand("rm", rm64_modes)
     reg = Operand("reg", Register64, read=True)
     syntax = Syntax([mnemonic, " ", rm, ",", " ", reg], priority=0)
-    members = {"syntax": syntax, "rm": rm, "reg": reg, "opcode": opcode}
+    members = {
+        "syntax": syntax,
+        "rm": rm,
+        "reg": reg,
+        "opcode": opcode,
+        "rm_written": write_op1,
+    }
     return type(mnemonic + "_ins", (rmregbase64,), members)
 
 
@@ -761,7 +803,13 @@ def make_rm_reg32(mnemonic, opcode, read_op1=True, write_op1=True):
     rm = Operand("rm", rm32_modes)
     reg = Operand("reg", Register32, read=True)
     syntax = Syntax([mnemonic, " ", rm, ",", " ", reg], priority=0)
-    members = {"syntax": syntax, "rm": rm, "reg": reg, "opcode": opcode}
+    members = {
+        "syntax": syntax,
+        "rm": rm,
+        "reg": reg,
+        "opcode": opcode,
+        "rm_written": write_op1,
+    }
     return type(mnemonic + "_ins", (rmregbase32,), members)
 
 
@@ -770,7 +818,13 @@ def make_rm_reg16(mnemonic, opcode, read_op1=True, write_op1=True):
     rm = Operand("rm", rm16_modes)
     reg = Operand("reg", Register16, read=True)
     syntax = Syntax([mnemonic, " ", rm, ",", " ", reg], priority=0)
-    members = {"syntax": syntax, "rm": rm, "reg": reg, "opcode": opcode}
+    members = {
+        "syntax": syntax,
+        "rm": rm,
+        "reg": reg,
+        "opcode": opcode,
+        "rm_written": write_op1,
+    }
     return type(mnemonic + "_ins", (rmregbase16,), members)
 
 
@@ -779,7 +833,13 @@ def make_rm_reg8(mnemonic, opcode, read_op1=True, write_op1=True):
     rm = Operand("rm", rm8_modes)
     reg = Operand("reg", Register8, read=True)
     syntax = Syntax([mnemonic, " ", rm, ",", " ", reg], priority=0)
-    members = {"syntax": syntax, "rm": rm, "reg": reg, "opcode": opcode}
+    members = {
+        "syntax": syntax,
+        "rm": rm,
+        "reg": reg,
+        "opcode": opcode,
+        "rm_written": write_op1,
+    }
     return type(mnemonic + "_ins", (rmregbase64,), members)
 
 
@@ -940,6 +1000,7 @@ class InstructionCollection:
 
         class shift_cl_base(X86Instruction):
             rm = Operand("rm", rm_modes)
+            rm_written = True
             tokens = bit_tokens
             patterns = {"opcode": 0xD3}
             for k, v in extra_patterns.items():
@@ -1032,6 +1093,7 @@ CmpImm = make_regimm("cmp", 0x81, 7)
 
 class shift8_cl_base(X86Instruction):
     rm = Operand("rm", rm8_modes)
+    rm_written = True
     tokens = [RexToken, OpcodeToken, ModRmToken]
     patterns = {"opcode": 0xD2}
     opcode = 0xD2
